@@ -517,3 +517,14 @@ func VerifHeaderParse(d []byte, p int, dl int, l int) {}
 func VerifDecodedIsEncoded(d []byte, o Options, r Options, defs map[OptionID]OptionDef) {
 	VerifParseOfEncoding(d, o, defs)
 }
+
+// Assumed contracts (CRC-64 of the token bytes; deep copy of an option list):
+//
+//@ func (Token) Hash() (h uint64)
+//@   trusted
+//
+//@ func (Options) Clone() (c Options, err error)
+//@   trusted
+//
+//@ func (Options) Path() (p string, err error)
+//@   trusted
